@@ -3,7 +3,8 @@
    dependence visible). A case = [styles: sequence of [attrs (subset of 1..4 as a sequence), css], regions: sequence
    of attribute subsets, meta: BOOLEAN (STL dates supplied by the metadata or left to the clock), keys: how the maps
    are keyed - 0 = every entry under its own ID, 1 = under foreign keys, 2 = foreign keys and the first two styles
-   (regions) carry one and the same ID (Writers.tla: an id may occur under several keys)]. *)
+   (regions) carry one and the same ID (Writers.tla: an id may occur under several keys), 3 = keys and IDs of which
+   two differ in letter case only]. *)
 EXTENDS Integers, Sequences, FiniteSets, SequencesExt, Json, IOUtils, TLC
 Env(n, dflt) == IF n \in DOMAIN IOEnv THEN atoi(IOEnv[n]) ELSE dflt
 gN == Env("GEN_N", 2)
@@ -12,7 +13,7 @@ gPS == Env("GEN_PARTS", 1)
 gA == Env("GEN_A", 2)
 AttrSeqs == {SetToSortSeq(S, <) : S \in SUBSET (1..gA)}
 StyleSeqs(n) == [1..n -> [attrs : AttrSeqs, css : {<<>>, <<1>>, <<1, 2>>}]]
-KeyModes(n) == IF n = 0 THEN {0} ELSE IF n = 1 THEN {0, 1} ELSE {0, 1, 2}
+KeyModes(n) == IF n = 0 THEN {0} ELSE IF n = 1 THEN {0, 1} ELSE {0, 1, 2, 3}
 Cases(z) == UNION {{[styles |-> st, regions |-> rg, meta |-> m, keys |-> k] :
                       st \in {x \in StyleSeqs(n) : (Len(x) + (IF x = <<>> THEN 0 ELSE Len(x[1].attrs))) % gPS = gP},
                       rg \in {<<>>, <<<<1>>, <<1, 2>>>>, <<<<>>, <<2>>, <<1, 2>>>>}, m \in BOOLEAN, k \in KeyModes(n)} : n \in 0..gN}
